@@ -20,6 +20,15 @@ Streams (all inputs derive from VERIF_SEED):
   melody-e2e       infer_melody_for_sequence: added notes / instrument vs the model's writer; includes sequences with
                    64..128 distinct pitches (129..257 states) and high notes held across several frame boundaries
   note-frames      sequence_note_frames vs the model
+  program-table    one melody case per MIDI program 0..127 and one chord case per program at the ends of the range and at
+                   every edge of the unpitched ranges (95/96, 103/104, 111/112, 119/120, 126/127): a second instrument with
+                   that program plays conspicuous notes above / against the piano part; judged by the oracles, which read
+                   "real note" from the General MIDI definition (GM_UNPITCHED below), never from the library's table
+  melody-history   several infer_melody_for_sequence calls in ONE process, one parameter changing per call, same / fresh
+                   input, every call judged on its own against the HMM its parameters define
+  helper-history   every helper that returns an array (chord tables, pitch vectors, note frames, melody tables) is called,
+                   its result overwritten in place, and called again with the same arguments: equal to the first result,
+                   no memory shared with it; module-level tables must be the same objects with the same contents afterwards
   chord-tables     in-key / out-of-key counts and chord pitch vectors vs the functions the rotation
                    theorem is stated about
 Oracle (independent of the model): a plain DP in the same operation order over the implementation's
@@ -53,6 +62,7 @@ THEOREMS = [
     'NSV.C19.chord_annotations_wf', 'NSV.C19.chord_times_nondecreasing', 'NSV.C19.perChord_times_monotone',
     'NSV.C19.melody_notes_wf', 'NSV.C19.melody_writer_ok', 'NSV.C19.melody_instrument_fresh',
     'NSV.C19.noteFrames_onset',
+    'NSV.C19.unpitched_table_gm', 'NSV.C19.unpitched_iff', 'NSV.C19.noteFrames_onset_gm', 'NSV.C19.noteFrames_pitched_seen',
     ('NoteSeqVerif.Props.C19_float', 'NSV.C19.mono_extq'), ('NoteSeqVerif.Props.C19_float', 'NSV.C19.mono_extq_rne53'),
     ('NoteSeqVerif.Props.C19_float', 'NSV.C19.extq_absorbing'),
     ('NoteSeqVerif.Props.C19_float', 'NSV.C19.keychord_viterbi_optimal_float'),
@@ -62,6 +72,15 @@ THEOREMS = [
 ]
 
 NINF = float('-inf')
+# General MIDI level 1, program numbers 1-based: 97-104 synth effects, 113-120 percussive, 121-128 sound effects are the
+# programs that do not sound a definite pitch; 0-based 96..103 and 112..127.  The oracles judge "real (pitched) note" from
+# THIS definition, not from constants.UNPITCHED_PROGRAMS.
+GM_UNPITCHED = frozenset(range(96, 104)) | frozenset(range(112, 128))
+PROGRAM_EDGES = [0, 1, 94, 95, 96, 97, 102, 103, 104, 105, 110, 111, 112, 113, 118, 119, 120, 121, 125, 126, 127]
+
+
+def gm_pitched(note):
+    return (not note.is_drum) and note.program not in GM_UNPITCHED
 CHORD_SYMBOL = 1   # NoteSequence.TextAnnotation.CHORD_SYMBOL
 BEAT = 2
 
@@ -495,6 +514,8 @@ def gen_chord_case(rng, nparams, family=False):
                 en = st
             drum = rng.random() < 0.04
             prog = rng.choice([0, 0, 0, 24, 40, 118 if rng.random() < 0.3 else 0])
+            if rng.random() < 0.1:
+                prog = rng.choice(PROGRAM_EDGES)
             d['notes'].append([pitch, st, en, rng.randrange(3), prog, drum])
     if not d['notes'] or rng.random() < 0.05:
         d['notes'].append([60 + key, 0.0, d['total_time'], 0, 0, False])
@@ -548,7 +569,7 @@ def gen_melody_big(rng):
                         lp = rng.choice(low)
                         off = rng.choice([0.0, 0.0, 0.5])
                         d['notes'].append([lp, (slot + q + off) * step, (slot + q + off + rng.choice([0.5, 1.0])) * step,
-                                           rng.choice([0, 1, 2]), 0, False])
+                                           rng.choice([0, 1, 2]), rng.choice(PROGRAM_EDGES) if rng.random() < 0.05 else 0, False])
                 slot += L + rng.choice([0, 0, 1])
     if rng.random() < 0.2:
         d['notes'].append([rng.choice(pitches), 0.0, step, 3, 0, True])       # a drum note: no state of its own
@@ -664,6 +685,8 @@ def gen_melody_case(rng):
         p = rng.choice(pitches)
         drum = rng.random() < 0.05
         prog = rng.choice([0, 0, 0, 40, 120 if rng.random() < 0.2 else 0])
+        if rng.random() < 0.1:
+            prog = rng.choice(PROGRAM_EDGES)
         d['notes'].append([p, a, b, rng.choice([0, 0, 1, 2, 8, 8]), prog, drum])
     ends = [n[2] for n in d['notes']]
     mx = max(ends + [0.0])
@@ -685,6 +708,145 @@ def gen_melody_case(rng):
     hist += ['notes:%s' % ('0' if nn == 0 else '1-5' if nn <= 5 else '6-20' if nn <= 20 else '21-100'),
              'params:%s' % ('default' if not d['params'] else 'custom')]
     return d, hist
+
+
+def gen_program_melody(p, rng):
+    """a piano line plus a second instrument with program `p` playing HIGHER notes over it (non-drum): whether those
+    notes are melody candidates depends only on whether program p is pitched"""
+    d = {'kind': 'melody', 'notes': [], 'params': {}}
+    t = 0.0
+    for i in range(rng.choice([3, 4, 5])):
+        ln = rng.choice([0.5, 1.0])
+        d['notes'].append([rng.choice([55, 57, 60, 62, 64]), t, t + ln, 0, 0, False])
+        if rng.random() < 0.8:
+            a = t + rng.choice([0.0, 0.25])
+            d['notes'].append([rng.choice([79, 83, 86, 90]), a, a + rng.choice([0.25, 0.5, ln]), 1, p, False])
+        t += ln
+    d['notes'].append([92, 0.0, min(0.5, t), 2, p, False])
+    d['total_time'] = max(n[2] for n in d['notes'])
+    return d, ['program %s' % ('pitched (GM)' if p not in GM_UNPITCHED else 'unpitched (GM)'),
+               'edge program' if p in PROGRAM_EDGES else 'inner program']
+
+
+def gen_program_chords(p, rng):
+    """two or three chord frames of piano triads plus an instrument with program `p` holding a loud foreign cluster"""
+    F = rng.choice([2, 3])
+    d = {'kind': 'chords', 'notes': [], 'annotations': [], 'key_signatures': [], 'qpm': 120.0, 'ts': [4, 4], 'spq': 4,
+         'chords_per_bar': 2, 'add_key_signatures': rng.random() < 0.5, 'params': 0, 'total_time': float(F)}
+    root = rng.randrange(12)
+    for f in range(F):
+        r = (root + rng.choice([0, 5, 7])) % 12
+        for o in (0, 4, 7):
+            d['notes'].append([48 + (r + o) % 12, float(f), float(f + 1), 0, 0, False])
+    for o in rng.sample([1, 6, 8, 10], 3):
+        d['notes'].append([72 + (root + o) % 12, 0.0, float(F), 1, p, False])
+    return d, ['program %s' % ('pitched (GM)' if p not in GM_UNPITCHED else 'unpitched (GM)'),
+               'edge program' if p in PROGRAM_EDGES else 'inner program']
+
+
+MEL_HIST = {'melody_interval_scale': [2.0, 0.5, 7.0], 'rest_prob': [0.1, 0.01, 0.5],
+            'instantaneous_non_max_pitch_prob': [1e-15, 1e-3, 0.3], 'instantaneous_non_empty_rest_prob': [0.0, 1e-3, 0.2],
+            'instantaneous_missing_pitch_prob': [1e-15, 1e-3, 0.4]}
+
+
+def gen_melody_history(rng):
+    """consecutive infer_melody_for_sequence calls in one process: one parameter changes per call (or none: the same
+    call again), on the same input or a fresh one"""
+    cur = {k: v[0] for k, v in MEL_HIST.items()} if rng.random() < 0.5 else {k: rng.choice(v) for k, v in MEL_HIST.items()}
+    same_input = rng.random() < 0.5
+    base, _ = gen_melody_case(rng)
+    calls = []
+    prev = None
+    for i in range(rng.choice([4, 5, 6])):
+        d = dict(base) if same_input else gen_melody_case(rng)[0]
+        d['params'] = dict(cur)
+        changed = 'first' if prev is None else '+'.join(k for k in cur if cur[k] != prev[k]) or 'none'
+        calls.append((d, ['varies:' + changed, 'input:' + ('same' if same_input else 'fresh')]))
+        prev = dict(cur)
+        k = rng.choice(list(MEL_HIST) + [None])
+        if k is not None:
+            if rng.random() < 0.3 and cur[k] > 0:
+                cur[k] = cur[k] * (1 + rng.choice([-1, 1]) * rng.uniform(0.05, 0.3))      # a nearby off-grid value
+            else:
+                cur[k] = rng.choice([v for v in MEL_HIST[k] if v != cur[k]] or MEL_HIST[k])
+    return calls
+
+
+# ---- module-level state that the two modules (and constants) carry: must be the same objects with the same contents
+# after any number of calls
+def module_state():
+    from note_seq import chord_inference as ci, melody_inference as mi, constants
+    objs = {'chord_inference._PITCH_CLASS_NAMES': ci._PITCH_CLASS_NAMES, 'chord_inference._KEY_PITCHES': ci._KEY_PITCHES,
+            'chord_inference._CHORD_KIND_PITCHES': ci._CHORD_KIND_PITCHES, 'chord_inference._CHORDS': ci._CHORDS,
+            'chord_inference._KEY_CHORDS': ci._KEY_CHORDS, 'chord_inference._MAX_NUM_CHORDS': ci._MAX_NUM_CHORDS,
+            'chord_inference._DEFAULT_TIME_SIGNATURE_CHORDS_PER_BAR': ci._DEFAULT_TIME_SIGNATURE_CHORDS_PER_BAR,
+            'melody_inference.MAX_NUM_FRAMES': mi.MAX_NUM_FRAMES, 'melody_inference.MELODY_VELOCITY': mi.MELODY_VELOCITY,
+            'melody_inference.REST': mi.REST, 'constants.UNPITCHED_PROGRAMS': constants.UNPITCHED_PROGRAMS,
+            'constants.NO_CHORD': constants.NO_CHORD}
+    return {k: (id(v), repr(list(v.items()) if isinstance(v, dict) else v)) for k, v in objs.items()}
+
+
+def module_state_diff(before):
+    now = module_state()
+    return sorted(k for k in before if before[k] != now.get(k))
+
+
+HELPERS = ['_key_chord_distribution', '_chord_pitch_vectors', 'sequence_note_pitch_vectors', '_chord_frame_log_likelihood',
+           'sequence_note_frames', '_melody_transition_distribution', '_melody_frame_log_likelihood',
+           '_key_chord_transition_distribution']
+
+
+def helper_call(np, name, d, arg):
+    """one call of a helper of the two modules on a generated sequence / parameter; returns a tuple of arrays / lists"""
+    from note_seq import chord_inference as ci, melody_inference as mi
+    with np.errstate(divide='ignore', invalid='ignore'), warnings.catch_warnings():
+        warnings.simplefilter('ignore')
+        if name == '_key_chord_distribution':
+            return (ci._key_chord_distribution(chord_pitch_out_of_key_prob=arg),)
+        if name == '_key_chord_transition_distribution':
+            dist = ci._key_chord_distribution(chord_pitch_out_of_key_prob=0.01)
+            return (ci._key_chord_transition_distribution(dist, key_change_prob=arg, chord_change_prob=0.5),)
+        if name == '_chord_pitch_vectors':
+            return (ci._chord_pitch_vectors(),)
+        if name == 'sequence_note_pitch_vectors':
+            return (ci.sequence_note_pitch_vectors(build_seq(d), arg),)
+        if name == '_chord_frame_log_likelihood':
+            return (ci._chord_frame_log_likelihood(ci.sequence_note_pitch_vectors(build_seq(d), arg), 100.0),)
+        if name == 'sequence_note_frames':
+            return tuple(mi.sequence_note_frames(build_seq(d)))
+        if name == '_melody_transition_distribution':
+            pitches = sorted(set(n[0] for n in d['notes']))
+            return (mi._melody_transition_distribution(arg, lambda iv: 1.0 / (1.0 + (iv / 2.0) ** 2)),)
+        pitches, on, nt, ev = mi.sequence_note_frames(build_seq(d))
+        s = build_seq(d)
+        durs = np.array([b - a for a, b in zip([0.0] + list(ev), list(ev) + [s.total_time])])
+        return (mi._melody_frame_log_likelihood(pitches, on, nt, durs, 1e-15, arg, 1e-15),)
+
+
+def helper_history(np, name, d, arg):
+    """call, keep a copy, overwrite everything returned in place, call again with the same arguments; returns failure
+    text or None"""
+    first = helper_call(np, name, d, arg)
+    saved = [a.copy() if isinstance(a, np.ndarray) else list(a) for a in first]
+    for a in first:
+        if isinstance(a, np.ndarray):
+            if a.flags.writeable and a.size:
+                a[...] = (~a) if a.dtype == bool else 12345.0
+        elif isinstance(a, list):
+            a.append(-777)
+            a.reverse()
+    second = helper_call(np, name, d, arg)
+    for i, (a, b, c) in enumerate(zip(saved, second, first)):
+        if isinstance(b, np.ndarray):
+            if b.shape != a.shape or not np.array_equal(a, b, equal_nan=True):
+                return ('%s: called twice with the same arguments, the first result overwritten in place in between: the second '
+                        'result differs from the first (component %d)' % (name, i))
+            if np.shares_memory(b, c):
+                return '%s: the second result shares memory with the first (component %d)' % (name, i)
+        elif list(b) != list(a):
+            return ('%s: called twice with the same arguments, the first result modified in place in between: the second '
+                    'result differs from the first (component %d)' % (name, i))
+    return None
 
 
 # ============================================================================= capture
@@ -803,6 +965,34 @@ LIKELIHOOD_MAX_FRAMES = 16
 BIG_RNE53_BUDGET = 4000000     # additions of the rne53-on-rationals instance per many-state melody table (measured: 257 states x 14 frames of integers 0.5 s)
 
 
+def ref_pitch_vectors(np, s, frames):
+    """unit pitch-class vector per chord frame, from the documented meaning (independent of the library function and of
+    its table of unpitched programs): every non-drum note whose program is pitched under General MIDI contributes to each
+    frame the time it sounds inside it.  `frames` = seconds per frame, or the list of interior frame boundaries."""
+    import numbers
+    if isinstance(frames, numbers.Number):
+        nf = int(math.ceil(s.total_time / frames))
+        bounds = [frames * k for k in range(1, nf)]
+    else:
+        bounds = sorted(frames)
+        nf = len(bounds) + 1
+    lo = [NINF] + list(bounds)
+    hi = list(bounds) + [float('inf')]
+    x = np.zeros([nf, 12])
+    for n in s.notes:
+        if not gm_pitched(n):
+            continue
+        for f in range(nf):
+            ov = min(n.end_time, hi[f]) - max(n.start_time, lo[f])
+            if ov > 0:
+                x[f, n.pitch % 12] += ov
+    for f in range(nf):
+        nrm = math.sqrt(float((x[f] ** 2).sum()))
+        if nrm > 0:
+            x[f] /= nrm
+    return x
+
+
 def oracle_chord_tables(np, ci, d, s, cap, fl, kc, tr, C, path=None):
     """"its own model": the three tables handed to the key-chord Viterbi must be the HMM that the DOCUMENTED parameters
     of infer_chords_for_sequence define (computed here from the chord / key tables and the parameters the caller passed):
@@ -857,7 +1047,7 @@ def oracle_chord_tables(np, ci, d, s, cap, fl, kc, tr, C, path=None):
                 'chord_change_prob=%r, chord_pitch_out_of_key_prob=%r define: entry %r' % (kcp, ccp, pout, bad))
     if cap.frames_arg:
         with np.errstate(divide='ignore', invalid='ignore'):
-            npv = ci.sequence_note_pitch_vectors(s, cap.frames_arg[0])
+            npv = ref_pitch_vectors(np, s, cap.frames_arg[0])
             E = conc * npv.dot(vec.T)
         bad = close_tables(np, fl, E, tol=1e-7)
         if bad:
@@ -1094,7 +1284,7 @@ def oracle_melody(np, d, res):
         return 'the melody instrument is not a fresh instrument number'
     if inst == 9:
         return 'the melody was put on the drum channel'
-    real = [n for n in orig if not n.is_drum and n.program not in constants.UNPITCHED_PROGRAMS]
+    real = [n for n in orig if gm_pitched(n)]       # General MIDI, not the library's table
     mel = sorted(added, key=lambda n: (n.start_time, n.end_time))
     for a, b in zip(mel, mel[1:]):
         if a.end_time > b.start_time:
@@ -1207,6 +1397,16 @@ def run(chk):
         fid = getattr(what, 'finding', None)
         if sum(1 for f in chk.failures if f['finding'] == fid) < (5 if fid else 25):
             chk.fail(str(what), replay, finding=fid)
+
+    ms0 = [module_state()]
+
+    def state_guard(rep, what):
+        """module-level tables of chord_inference / melody_inference / constants: same objects, same contents"""
+        diff = module_state_diff(ms0[0])
+        chk.count('module-state', None, False, 'unchanged' if not diff else 'CHANGED')
+        if diff:
+            fail_once('module-level table(s) %s are no longer what they were before %s' % (', '.join(diff), what), rep)
+            ms0[0] = module_state()
 
     # ------------------------------------------------------------------ corpus first
     for name, obj in corpus_cases(PID):
@@ -1428,8 +1628,25 @@ def run(chk):
             if o:
                 fail_once(o, dict(d, transpose=k))
         chord_lines('chords-e2e', d, res, hist, d)
+        state_guard(d, 'this infer_chords_for_sequence call')
     chk.notes['transpose_max_relative_difference'] = max_rel
     lap('chords-e2e')
+    # ------------------------------------------------------------------ program table, chords: the ends of the program
+    # range and every edge of the unpitched ranges (all 128 programs in the thorough tier)
+    rng = chk.subrng('program-table-chords')
+    for p_ in (range(128) if chk.thorough else PROGRAM_EDGES):
+        d, hist = gen_program_chords(p_, rng)
+        res = run_chords(d, cache)
+        o = oracle_chords(np, d, res)
+        chk.count('oracle-chords', None)
+        if o:
+            fail_once(Fail('second instrument with program %d (%s under General MIDI): %s' % (
+                p_, 'unpitched' if p_ in GM_UNPITCHED else 'pitched', o)), d)
+        if res['err'] is not None or len(res['cap'].kc) != 1:
+            chk.count('program-table', None, False, hist + ['impl-error'])
+            continue
+        chord_lines('program-table', d, res, ['chords'] + hist, d)
+    lap('program-chords')
 
     # ------------------------------------------------------------------ call histories in ONE process
     # consecutive infer_chords_for_sequence calls whose parameters differ in exactly one of key_change_prob /
@@ -1451,6 +1668,7 @@ def run(chk):
                 chk.count('chords-history', None, False, hist + ['impl-error'])
                 continue
             chord_lines('chords-history', d, res, hist, rep)
+            state_guard(rep, 'this call history')
     for tr, lines, mt, _ in tr_groups:
         groups.append(lines)
         meta.append(mt)
@@ -1466,8 +1684,20 @@ def run(chk):
     rng_b = chk.subrng('melody-many-pitches')
     n_main = chk.n(400, 20000)
     n_z = chk.n(20, 300)
-    for i in range(n_main + n_z + chk.n(20, 400)):
-        if i < n_main:
+    n_b = chk.n(20, 400)
+    rng_p = chk.subrng('program-table-melody')
+    # one melody case per MIDI program (both tiers), then the call histories (each call is one case of the loop)
+    tail = [(d_, ['program-table'] + h_, d_, 'program-table') for d_, h_ in (gen_program_melody(p_, rng_p) for p_ in range(128))]
+    rng_h = chk.subrng('melody-history')
+    for _ in range(chk.n(12, 150)):
+        calls = gen_melody_history(rng_h)
+        for k_, (d_, h_) in enumerate(calls):
+            tail.append((d_, ['melody-history'] + h_, {'kind': 'melody-history', 'calls': [c for c, _ in calls[:k_ + 1]]}, 'melody-history'))
+    for i in range(n_main + n_z + n_b + len(tail)):
+        rep, mstream = None, 'melody-e2e'
+        if i >= n_main + n_z + n_b:
+            d, hist, rep, mstream = tail[i - n_main - n_z - n_b]
+        elif i < n_main:
             d, hist = gen_melody_case(rng)
         elif i >= n_main + n_z:
             d, hist = gen_melody_big(rng_b)
@@ -1480,13 +1710,20 @@ def run(chk):
                 d['total_time'] = max(d['total_time'], 1.0)
             d['notes'].append([rng_z.choice([n[0] for n in d['notes']] + [100, 101]), d['total_time'], d['total_time'], 0, 0, False])
             hist = ['zero-length-at-total_time']
+        rep = rep or d
         res = run_melody(d)
         chk.count('oracle-melody', None)
         o = oracle_melody(np, d, res)
         if o:
-            fail_once(o, d)
+            if mstream == 'melody-history':
+                f_ = Fail('call %d of %d consecutive infer_melody_for_sequence calls in one process: %s' % (
+                    len(rep['calls']), len(rep['calls']), o))
+                f_.finding = getattr(o, 'finding', None)
+                o = f_
+            fail_once(o, rep)
+        state_guard(rep, 'this infer_melody_for_sequence call')
         if res['err'] is not None:
-            chk.count('melody-e2e', None, False, hist + ['impl-error'])
+            chk.count(mstream, None, False, hist + ['impl-error'])
             continue
         s, n0 = res['seq'], res['n0']
         lines, mt = [], []
@@ -1529,20 +1766,20 @@ def run(chk):
                 lines.append('mw %s %d %s %d %s %d %s' % (rat(s.total_time), len(pit), ' '.join(map(str, pit)), len(path),
                                                           ' '.join(map(str, path)), len(times), ' '.join(rat(t) for t in times)))
                 impl_w = 'ok %d' % len(added) + ''.join(' %s %s %d' % (rat(n.start_time), rat(n.end_time), n.pitch) for n in added)
-                mt.append(('melody-e2e', d, impl_w, 'mw', hist + ['added:%s' % ('0' if not added else '1-3' if len(added) <= 3 else '4+'),
+                mt.append((mstream, rep, impl_w, 'mw', hist + ['added:%s' % ('0' if not added else '1-3' if len(added) <= 3 else '4+'),
                                                                   'rest-in-path' if 0 in path[1:] else 'no-rest',
                                                                   'sustain' if any(x > len(pit) for x in path) else 'no-sustain']
                            + (['states:%s' % ('129-255' if fl.shape[1] < 256 else '257'),
                                'sustain>=128 held:%s' % ('yes' if any(a == b and a >= 128 and a > len(pit) for a, b in zip(path, path[1:])) else 'no')]
                               if fl.shape[1] > 128 else [])))
                 if any(n.velocity != mi.MELODY_VELOCITY for n in added):
-                    chk.disagree('melody-e2e', d, 'velocity %s' % [n.velocity for n in added], 'velocity %d' % mi.MELODY_VELOCITY)
+                    chk.disagree(mstream, rep, 'velocity %s' % [n.velocity for n in added], 'velocity %d' % mi.MELODY_VELOCITY)
             else:
-                chk.count('melody-e2e', None, False, hist + ['nan-tables-skipped'])
+                chk.count(mstream, None, False, hist + ['nan-tables-skipped'])
         else:
             if added:
-                chk.disagree('melody-e2e', d, 'notes added without inference', 'no notes')
-            chk.count('melody-e2e', ('none', i), False, hist + ['no-pitched-notes'])
+                chk.disagree(mstream, rep, 'notes added without inference', 'no notes')
+            chk.count(mstream, ('none', i), False, hist + ['no-pitched-notes'])
         groups.append(lines)
         meta.append(mt)
 
@@ -1575,6 +1812,31 @@ def run(chk):
     meta.append(mt)
     monitor_rotation(chk, np, ci, fail_once)
 
+    # ------------------------------------------------------------------ helpers: same arguments twice, first result
+    # overwritten in place in between (a memoised helper hands every caller the same array)
+    rng = chk.subrng('helper-history')
+    for name in HELPERS:
+        slow = name == '_key_chord_transition_distribution'
+        for _ in range(1 if slow else chk.n(6, 60)):
+            d = gen_melody_case(rng)[0]
+            if not d['notes']:
+                d['notes'].append([60, 0.0, 1.0, 0, 0, False])
+                d['total_time'] = max(d['total_time'], 1.0)
+            d['total_time'] = max(d['total_time'], 0.5)
+            arg = {'_key_chord_distribution': rng.choice([0.01, 0.05, 0.3]), '_key_chord_transition_distribution': rng.choice([0.001, 0.05]),
+                   'sequence_note_pitch_vectors': rng.choice([0.5, 1.0, 0.37]), '_chord_frame_log_likelihood': rng.choice([0.5, 1.0]),
+                   '_melody_transition_distribution': rng.choice([0.1, 0.3]),
+                   '_melody_frame_log_likelihood': rng.choice([0.0, 1e-3])}.get(name)
+            rep = {'kind': 'helper-history', 'fn': name, 'seq': d, 'arg': arg}
+            try:
+                r = helper_history(np, name, d, arg)
+            except Exception as e:  # pylint: disable=broad-except
+                r = '%s raised %s: %s' % (name, type(e).__name__, e)
+            chk.count('helper-history', (name, digest(d), arg), True, name + (': holds' if not r else ': FAILS'))
+            if r:
+                fail_once(r, rep)
+            state_guard(rep, 'these helper calls')
+    lap('helper-history')
     # ------------------------------------------------------------------ run the model, diff
     lap('chord-tables')
     outs = run_groups(chk, groups)
@@ -1695,7 +1957,17 @@ def tab(rows):
 
 
 def replay_case(np, obj, cache, quiet=False):
-    """re-run one replay input against the real code with the oracle; returns the failure text or None"""
+    """re-run one replay input against the real code with the oracle; returns the failure text or None.  The module-level
+    tables must be what they were before."""
+    before = module_state()
+    r = _replay_case(np, obj, cache, quiet)
+    diff = module_state_diff(before)
+    if diff and not r:
+        r = 'module-level table(s) %s are no longer what they were before the call(s)' % ', '.join(diff)
+    return r
+
+
+def _replay_case(np, obj, cache, quiet=False):
     from note_seq import chord_inference as ci, melody_inference as mi
     kind = obj.get('kind')
     say = (lambda *a: None) if quiet else print
@@ -1732,6 +2004,21 @@ def replay_case(np, obj, cache, quiet=False):
             if r and first is None:
                 first = 'call %d of %d consecutive calls in one process: %s' % (k + 1, len(obj['calls']), r)
         return first
+    if kind == 'melody-history':
+        first = None
+        for k, d in enumerate(obj['calls']):
+            res = run_melody(d)
+            r = oracle_melody(np, d, res)
+            say('call %d/%d params %r -> %s' % (k + 1, len(obj['calls']), d['params'], r or 'holds'))
+            if r and first is None:
+                first = Fail('call %d of %d consecutive infer_melody_for_sequence calls in one process: %s' % (k + 1, len(obj['calls']), r))
+                first.finding = getattr(r, 'finding', None)
+        return first
+    if kind == 'helper-history':
+        try:
+            return helper_history(np, obj['fn'], obj['seq'], obj['arg'])
+        except Exception as e:  # pylint: disable=broad-except
+            return '%s raised %s: %s' % (obj['fn'], type(e).__name__, e)
     if kind == 'chords':
         if obj.get('expect'):
             res = run_chords(obj, cache)
